@@ -316,6 +316,28 @@ class Models(Structural):
         from .lib import dtype_name
         return self.full(shape, 1, dtype_name(dtype, 'float'))
 
+    @reg('numpy.empty')
+    def np_empty(self, shape, dtype=None):
+        """Uninitialised array: ARBITRARY content (a fresh uninterpreted function), so only cells the code writes are known."""
+        from .lib import dtype_name
+        from .np_util import fresh_array_fn
+        dt = dtype_name(dtype, 'float')
+        shp = self._shape_arg(shape)
+        self._check_dims(shp)
+        get = fresh_array_fn('empty', len(shp), dt)
+        if all(isinstance(s, int) for s in shp):
+            a = np.empty(shp, dtype=object)
+            for ix in np.ndindex(*shp):
+                a[ix] = get(*ix)
+            return BArr(a, dt)
+        return CArr.from_fn(get, shp, dt)
+
+    @reg('numpy.empty_like')
+    def np_empty_like(self, a, dtype=None, shape=None):
+        from .lib import dtype_name
+        a = self.asarray(a)
+        return self.np_empty(self._like_shape(shape, a), dtype_name(dtype, a.dtype))
+
     @reg('numpy.zeros_like')
     def np_zeros_like(self, a, dtype=None, shape=None):
         from .lib import dtype_name
